@@ -8,7 +8,7 @@ CONSTS = {"Members": '{"m1", "m2", "m3"}', "Ids": '{"m1", "m2", "m3", "zz", ""}'
 QUICK_N = 900
 ISO_CHUNK = 1500
 MAX_SCENARIOS = 30000   # guard: every isolated child parses the whole scenario file
-QUICK_FAMS = ("route2", "probe", "sub1", "sub2", "mix", "init", "lu", "w3q")
+QUICK_FAMS = ("route2", "probe", "sub1", "sub2", "mix", "init", "lu", "w3q", "hold", "holdr")
 
 GEN_CFG = """SPECIFICATION Spec
 CONSTANTS
@@ -82,7 +82,7 @@ def scenarios(ctx, scripts):
         for mode, wait in variants:
             add(sc["fam"], dict(base, mode=mode, wait=wait), sc["steps"])
         # the real pollers decide the ids themselves: only the order of the operations matters
-        if has_sel and sc["init"] in sc["members"] and sc["fam"] in ("route2", "sub2", "lu", "w3"):
+        if has_sel and sc["init"] in sc["members"] and sc["fam"] in ("route2", "sub2", "lu", "w3", "hold"):
             st = [dict(s, id="?") if s["a"] == "select" else s for s in sc["steps"]]
             orders.setdefault(json.dumps([sc["fam"], base, st], sort_keys=True), (sc["fam"], base, st))
     for fam, base, st in orders.values():
@@ -130,8 +130,12 @@ def run():
     scs = scenarios(ctx, scripts)
     total = len(scs)
     if ctx.quick():
-        corners = [s for s in scs if "/corner/" in s["id"]]
-        scs = pick([s for s in scs if "/corner/" not in s["id"]], QUICK_N, ctx.seed) + corners
+        # always part of the quick tier: the fixed corners and the scenarios in which selections queue up behind a write in flight
+        def fixed(s):
+            return "/corner/" in s["id"] or (s["id"].startswith("C19/hold/") and s["p"]["wait"]
+                                             and sum(1 for x in s["steps"] if x["a"] == "select") == 2)
+        corners = [s for s in scs if fixed(s)]
+        scs = pick([s for s in scs if not fixed(s)], QUICK_N, ctx.seed) + corners
     if len(scs) > MAX_SCENARIOS:
         raise Inconclusive("generator families produce %d scenarios (> %d): trim the families in MultiTransport.tla" % (len(scs), MAX_SCENARIOS))
     log("[C19] %d scripts, %d scenarios (of %d)" % (len(scripts), len(scs), total))
